@@ -618,9 +618,15 @@ def l14(ctx, rid):
                         if created in [v for v, _ in t['vals']]:
                             other_edges.append(t['otherwise'])
             rets = [i for i in f.reachable() if f.blocks[i]['t']['k'] == 'return']
+            # an old state that is put back untouched (`other => { self.state = other; return }`) is not lost
+            put_back = []
+            for i in f.reachable():
+                for st in f.blocks[i]['s']:
+                    if st['k'] == 'a' and core.place_fields(st['d'])[-1:] == ['state'] and st['r']['k'] == 'use' and op_local(st['r']['o']) in carry:
+                        put_back.append(i)
             if not found:
                 ctx.bad(rid, key, c.where(), 'the observer state is moved out without being matched')
-            elif any(r in f.reach_from(other_edges) for r in rets):
+            elif any(r in f.reach_from(other_edges, avoid_enter=put_back) for r in rets):
                 ctx.bad(rid, key, c.where(), 'an old observer state other than Created can reach a normal return after it was moved out of `self.state`: a Running state (second init / launch) is dropped there together with its Sender - the worker exits and background maintenance stops for the rest of the session')
             else:
                 ctx.ok(rid, key, c.where(), 'only a Created state is consumed; every other old state diverges')
